@@ -734,8 +734,9 @@ class _ActionSubCommands(_SubParsersAction):
                     f'explicit "{dest}" key. Subcommand "{subcommand}" will be used.'
                 )
 
-        # Remove extra subcommand settings
-        if subcommand and len(subcommand_keys) > 1:
+        # Remove extra subcommand settings (not while loading a single config document: a source with
+        # higher priority can still name a different subcommand, whose settings must then be available)
+        if subcommand and len(subcommand_keys) > 1 and (fail_no_subcommand or require_single):
             for key in [k for k in subcommand_keys if k != subcommand]:
                 del cfg[prefix + key]
 
